@@ -8,9 +8,10 @@ CONSTANTS
   Devs = {}
   LevelSet = {"3"}
   Focus = "session"
-  MaxOps = 8
+  MaxOps = 9
   MaxProbes = 1
   SetLevels = {}
+  BadActivations = "full"
 INIT GInit
 NEXT GNext
 INVARIANT InvSessionRequired
